@@ -129,6 +129,42 @@ PROPS = {
                        "earlier requests, hence in every history each image equals a fresh writer's; source fact (regenerated): dump() resets the three "
                        "fields; counterexample theorem for the unrepaired code. Live histories check the real writer.",
     },
+    "C05": {
+        "rule": "in-process: random ucontext / fpstate register files (boundary values per field) through the real CrashContext::fill_cpu_context and scroll; "
+                "live: real dumps with and without a crash context (registers inside / outside mappings, blamed thread main / other / absent / traced by "
+                "another process so that it cannot be attached): decoded exception stream and blamed thread's entry. Non-trivial = every case; distinct = "
+                "distinct register residues (in-process) / option vectors (live).",
+        "expected_tags": ["uctx", "cfg.crash", "cfg.nocrash", "blamed.listed", "blamed.unlisted"],
+        "trusted_base": ["scroll field-wise little-endian serialisation of CONTEXT_AMD64 (byte-compared with the model)", "the live target reports its own register values"],
+        "assumptions": ["x86_64", "ds/es/ss are not part of a ucontext; CONTEXT.MxCsr (top level) is left 0 by the writer, float_save.mx_csr carries the value"],
+        "explanation": "C05 theorems: every general-purpose, flag, segment and x87/SSE register of the supplied ucontext sits at its WinNT CONTEXT offset in the "
+                       "serialised record; exception-record layout; fields chosen with / without a crash context (incl. the repaired case of an unlisted "
+                       "blamed thread).",
+    },
+    "C04": {
+        "rule": "in-process: random user_regs / fpregs / debug registers through the real ThreadInfo::fill_cpu_context; live: targets whose threads load sentinel "
+                "values into rbx rbp r8-r10 r12-r15, all 16 SSE and two x87 registers and block in a raw syscall (1 … 64 threads, all option combinations), "
+                "threads made to exit at threads_enumerated / before_attach through the sync hook (target not group-stopped), a blamed thread traced by "
+                "another process, busy threads keeping one counter in a register, a stack slot and an app-memory word. Distinct = (thread count, #exits, tag set).",
+        "expected_tags": ["pctx", "thread.checked", "exit.omitted", "busy.checked", "blamed.traced", "exits.threads_enumerated", "exits.before_attach"],
+        "extra_theorems": ["plan_no_target_read_after_resume", "plan_resume_reached"],
+        "trusted_base": ["kernel ptrace stop semantics (a thread that was attached and waited for does not run until detached)", "the live target reports its own register values"],
+        "assumptions": ["part (iii) is partial: real scheduling cannot be exhibited by the model; live runs sample it (busy threads, one-step agreement of three copies of a counter)"],
+        "explanation": "C04 theorems: (i) every ptrace-obtained register at its WinNT CONTEXT offset; (ii) the list is exactly the attachable, non-null-SP threads, "
+                       "once each, each with its own registers, every omitted thread reported; (iii) regenerated source fact: no target-reading step after resume.",
+    },
+    "C07": {
+        "rule": "live dumps: pattern regions of 1 … 70000 bytes at all alignments ending at an unmapped / PROT_NONE / readable page requested as app memory, "
+                "crash instruction pointers inside / outside mappings, thread stacks; every recorded region is compared byte for byte with a snapshot of the "
+                "target's memory taken while it is blocked; the IP window is predicted from the target's memory map through the aggregate model. "
+                "Distinct = (list length, app lengths, tag set).",
+        "expected_tags": ["bytes.compared", "cfg.app", "ipwindow.expected", "ip.unmapped", "cfg.sanitize"],
+        "trusted_base": ["the harness reads the target's memory through /proc/<pid>/mem while it is blocked"],
+        "assumptions": ["first or later dump of a writer alike (C19)", "an unreadable app region or IP window aborts the dump with Err (outside C07)",
+                        "with sanitization the stack regions are intentionally altered (C12) and are not byte-compared"],
+        "explanation": "C07 theorems: IP window inside the first mapping containing IP, containing IP, ≤ 128 bytes to either side, clipped exactly; memory-list layout "
+                       "(count + descriptors in registration order); registration completeness. Faithfulness of the bytes rests on C17.",
+    },
 }
 
 NOT_APPLICABLE = {}
